@@ -162,17 +162,8 @@ def run_seq(case):
     tspec.validate(tsp)
     T = tspec.build(tsp)
     C = _wrapped(tspec.build({"k": kind, "a": tsp, "m": case.get("m", "annotate")}), case.get("wrap"))
-    if kind in ("set", "frozenset"):
-        # the source is turned into a set before its elements are parsed: equal elements (True / 1) collapse to the first one
-        seen, uniq = set(), []
-        for e in elems:
-            v = codec.decode(e)
-            if v not in seen:
-                seen.add(v)
-                uniq.append(e)
-        elems_eff = uniq
-    else:
-        elems_eff = elems
+    # (a set type parses every item of an array source and builds the set from the results, like a list type does)
+    elems_eff = elems
     exp, off, conv = expect_seq(kind, T, elems_eff, pol)
     import utype
     x = codec.decode({"t": src, "v": elems})
@@ -360,8 +351,6 @@ def run_case(case):
     from .c09 import _one_shot_spec
     if _one_shot_spec(case):
         raise HarnessError("one-shot element")
-    if part == "seq" and case.get("kind") in ("set", "frozenset") and not all(gen._hashable_spec(e) for e in case.get("elems", [])):
-        raise HarnessError("unhashable element for a set source")
     try:
         exp, got, off, conv, label = fn(case)
     except HarnessError:
@@ -418,7 +407,7 @@ def case_strategy():
         "elem": st.one_of(et, et, et, st.sampled_from(NESTED)), "policy": POLICY, "m": st.sampled_from(["annotate", "typing"]),
         "src": st.sampled_from(["list", "list", "tuple"]),
     }).flatmap(lambda c: st.fixed_dictionaries({k: st.just(v) for k, v in c.items()} | {
-        "elems": st.lists(st.one_of(gen.conforming(c["elem"]), gen.exact_values(c["elem"]), ELEMS if c["kind"] in ("list", "tuplev") else HELEMS).filter(
+        "elems": st.lists(st.one_of(gen.conforming(c["elem"]), gen.exact_values(c["elem"]), ELEMS).filter(
             lambda e: not _one_shot(e) and (c["kind"] in ("list", "tuplev") or gen._hashable_spec(e))), min_size=2, max_size=6)}))
     seq = seq.filter(lambda c: c["kind"] in ("list", "tuplev") or c["elem"]["k"] not in ("list", "dict"))
     mp = st.fixed_dictionaries({
